@@ -1,6 +1,6 @@
 """MSM data segment rules (C10; M-guards is also relied on by C09's residue)."""
 import re
-from terms import FA, show, mk, ty_of, is_const, const_val, T, subterms
+from terms import FA, show, mk, ty_of, is_const, const_val, T, subterms, same_agg_through_phi
 from facts import callee_of
 from intervals import Intervals
 from algebra import fact_of_guard, canon_le, lin
@@ -73,8 +73,10 @@ def err_returns(f, fa):
         for i, s in enumerate(f.blocks[b]["stmts"]):
             if s["k"] == "assign" and s["place"]["local"] == 0 and not s["place"]["proj"]:
                 v = fa.rv_term(s["rv"], (b, i))
-                if v.op == "agg" and v.args[2] == "Err" and v.args[3] and v.args[3][0].op == "agg" and v.args[3][0].args[0] == ERR:
-                    out.append((b, v.args[3][0].args[2], s["line"]))
+                if v.op == "agg" and v.args[2] == "Err" and v.args[3]:
+                    e_ = same_agg_through_phi(fa, v.args[3][0])
+                    if e_.op == "agg" and e_.args[0] == ERR:
+                        out.append((b, e_.args[2], s["line"]))
     return out
 
 
@@ -82,6 +84,12 @@ def is_bit(t, width_const):
     """t == 1 << (W - x) : returns x"""
     if t.op == "bin" and t.args[0] == "Shl" and is_const(t.args[1]) and const_val(t.args[1]) == 1:
         a = t.args[2]
+        while a.op == "cast" and a.args[0] == "IntToInt":
+            # a widening conversion of the unsigned shift amount (`shift.into()`, `as u32`) does not change it
+            sty, dty = ty_of(a.args[1]), ty_of(a)
+            if not (sty and dty and sty.get("k") == "uint" and dty.get("k") in ("uint", "int") and int(sty.get("bits") or 64) <= int(dty.get("bits") or 64)):
+                break
+            a = a.args[1]
         if a.op == "bin" and a.args[0] == "Sub" and is_const(a.args[1]) and const_val(a.args[1]) == width_const:
             return a.args[2]
     return None
